@@ -449,9 +449,40 @@ def run(ctx, quick):
     }
 
 
+def is_ba_replay(path):
+    try:
+        return str(json.load(open(path)).get("key", "")).startswith("C07:BA:")
+    except (OSError, ValueError):
+        return False
+
+
+def replay(ctx):
+    """Re-run the case of a recorded BA violation (tools/check ... --replay <file>): same world seed, same schedule."""
+    doc = json.load(open(ctx.replay))
+    case = (doc.get("payload") or {}).get("case")
+    if not case:
+        raise vlib.CheckError("replay file has no BA case payload")
+    ctx.seed = int(doc.get("seed", ctx.seed))
+    drv = vlib.build_driver(ctx, "d_ba", clocks=CLOCKS)
+    cases_path = ctx.path("ba", "cases.json")
+    with open(cases_path, "w") as f:
+        f.write(json.dumps(case) + "\n")
+    trace, msg = run_driver(ctx, drv, cases_path, 1, 1)
+    lines, drift, broken = validate(ctx, trace, par=1, chunk=1000000)
+    report(ctx, broken, [case])
+    ctx.log("BA replay: %d lines, %d clause reports" % (lines, len(broken)))
+    return {"ba_states": 0, "ba_transitions": 0, "ba_rounds_on_real_engines": 1, "ba_trace_lines_validated": lines,
+            "ba_samples": [{"kind": case.get("kind"), "src": case.get("src"), "sched": case.get("sched", [])[:25]}], "ba_rule": "replay of one recorded round"}
+
+
 def main(ctx):
     """Stand-alone run (tools/check extra_ba): the same as the part C07 runs, with its own evidence file."""
     ctx.prop = "C07"
+    if getattr(ctx, "replay", None):
+        cov = replay(ctx)
+        ctx.prop = "C07_BA"
+        return vlib.finish(ctx, "model_checking", {"states": 0, "transitions": 0, "traces_validated_against_impl": 1, "samples": cov["ba_samples"],
+                                                   "rule": cov["ba_rule"]})
     cov = run(ctx, ctx.tier == "quick")
     cov2 = {"states": cov["ba_states"], "transitions": cov["ba_transitions"], "traces_validated_against_impl": cov["ba_rounds_on_real_engines"],
             "samples": cov["ba_samples"], "rule": cov["ba_rule"]}
